@@ -68,6 +68,7 @@ static void fresh(void)
 
 int main(void)
 {
+    setvbuf(stdout, NULL, _IOLBF, 0);
     char line[256];
     fresh();
     while (fgets(line, sizeof line, stdin)) {
